@@ -1,7 +1,7 @@
 //vp:property C02
 //vp:pkg ./tsdb
 //vp:roots ./storage ./model/histogram ./model/labels ./model/value ./tsdb/chunkenc ./tsdb/chunks ./tsdb/record ./util/zeropool
-//vp:bounds admission through the V2 appender (headAppenderV2.Append -> appendFloat / appendHistogram / appendFloatHistogram, the stale-marker conversion into the batch's histogram type, getCurrentBatch) for one existing series with an arbitrary newest in-order sample (float / histogram / float histogram at any int64 time): a first append of a case-split kind (none, float, histogram, float histogram) at the series' newest time + 1, then the append under test - any int64 timestamp, a float of any bit pattern (staleness marker included), a histogram or a float histogram - with RejectOutOfOrder symbolic, any head max time, minimum valid time and out-of-order window >= 0: the result is the documented class (accepted, duplicate, too old, out of bounds, out of order), an out-of-order sample is rejected at once when the caller asked for it, and an accepted sample is queued exactly once with its timestamp
+//vp:bounds (the V1 appender headAppender.Append / AppendHistogram with DiscardOutOfOrder is checked the same way) admission through the V2 appender (headAppenderV2.Append -> appendFloat / appendHistogram / appendFloatHistogram, the stale-marker conversion into the batch's histogram type, getCurrentBatch) for one existing series with an arbitrary newest in-order sample (float / histogram / float histogram at any int64 time): a first append of a case-split kind (none, float, histogram, float histogram) at the series' newest time + 1, then the append under test - any int64 timestamp, a float of any bit pattern (staleness marker included), a histogram or a float histogram - with RejectOutOfOrder symbolic, any head max time, minimum valid time and out-of-order window >= 0: the result is the documented class (accepted, duplicate, too old, out of bounds, out of order), an out-of-order sample is rejected at once when the caller asked for it, and an accepted sample is queued exactly once with its timestamp
 //vp:assume no exemplars, metadata or zero-sample start timestamps; head metrics are no-op stubs in the engine; headMaxt >= MinInt64 + window
 package tsdb
 
@@ -85,6 +85,121 @@ func vpH_C02_appender_v2_admission() {
 		wantOOO, wantClass = false, vpXOOB // fail-fast path
 	}
 	if wantOOO && reject {
+		wantClass = vpXOOO
+	}
+	got := vpXClass(err)
+	vpObserve("class", got)
+	vpAssert(got == wantClass, "error class matches the documented ordering rules (and the caller's out-of-order rejection)")
+	// the accepted sample is queued exactly once, in the list of its (effective) type
+	nf, nh, nfh := 0, 0, 0
+	var lastQueuedT int64
+	for _, b := range a.batches {
+		nf += len(b.floats)
+		nh += len(b.histograms)
+		nfh += len(b.floatHistograms)
+		for _, x := range b.floats {
+			lastQueuedT = x.T
+		}
+	}
+	wantTotal := queued
+	if got == vpXAccept {
+		wantTotal++
+	}
+	vpObserve("queued", nf+nh+nfh)
+	vpAssert(nf+nh+nfh == wantTotal, "exactly the accepted samples are queued for commit")
+	if got == vpXAccept && effKind == 1 && nf > 0 {
+		vpAssert(lastQueuedT == t, "queued with its timestamp")
+	}
+	if got == vpXAccept {
+		wantF, wantH, wantFH := 0, 0, 0
+		for _, k := range []int{firstKind * queued, effKind} {
+			switch k {
+			case 1:
+				wantF++
+			case 2:
+				wantH++
+			case 3:
+				wantFH++
+			}
+		}
+		vpAssert(nf == wantF && nh == wantH && nfh == wantFH, "queued under its own sample type (a float staleness marker follows the batch's histogram type)")
+	}
+	vpReach("end")
+}
+
+// The same for the V1 appender (Append / AppendHistogram with SetOptions(DiscardOutOfOrder)).
+func vpH_C02_appender_v1_admission() {
+	lset := labels.FromStrings("a", "b")
+	state := vpShape("state", 1, 3)
+	lastT := vpInt64()
+	vpAssume(lastT < math.MaxInt64-2)
+	s := vpXSeries(state, lastT, 1.5, 3, 2.5)
+	s.ref = 1
+	s.lset = lset
+	if s.lastHistogramValue != nil {
+		s.lastHistogramValue.ZeroCount = 3 // valid integer histogram: the buckets (here only the zero bucket) add up to the count
+	}
+	h := &Head{opts: &HeadOptions{}}
+	h.metrics = newHeadMetrics(h, nil)
+	h.series = newStripeSeries(1, &noopSeriesLifecycleCallback{})
+	h.series.series[0][s.ref] = s
+	headMaxt, minValid, window := vpInt64(), vpInt64(), vpInt64()
+	vpAssume(window >= 0)
+	vpAssume(headMaxt >= math.MinInt64+window)
+	a := &headAppender{headAppenderBase: headAppenderBase{head: h, minValidTime: minValid, headMaxt: headMaxt, oooTimeWindow: window,
+		typesInBatch: map[chunks.HeadSeriesRef]sampleType{}}}
+
+	// an earlier append of this appender (decides the batch's sample type for the series)
+	firstKind := vpShape("first", 0, 3)
+	queued := 0
+	if firstKind != 0 {
+		var err error
+		switch firstKind {
+		case 1:
+			_, err = a.Append(1, lset, lastT+1, 7)
+		case 2:
+			_, err = a.AppendHistogram(1, lset, lastT+1, &histogram.Histogram{Count: 9, ZeroCount: 9, Sum: 3}, nil)
+		case 3:
+			_, err = a.AppendHistogram(1, lset, lastT+1, nil, &histogram.FloatHistogram{Count: 9, Sum: 3})
+		}
+		if err == nil {
+			queued = 1
+		}
+	}
+
+	t := vpInt64()
+	reject := vpBool()
+	a.SetOptions(&storage.AppendOptions{DiscardOutOfOrder: reject})
+	kind := vpShape("kind", 1, 3)
+	v := vpFloat64()
+	var err error
+	sameAsLast := false
+	effKind := kind
+	switch kind {
+	case 1:
+		_, err = a.Append(1, lset, t, v)
+		stale := math.Float64bits(v) == 0x7ff0000000000002
+		if stale && firstKind == 2 && queued == 1 {
+			effKind = 2 // converted into a histogram staleness marker
+		} else if stale && firstKind == 3 && queued == 1 {
+			effKind = 3
+		}
+		switch effKind {
+		case 1:
+			sameAsLast = state == 1 && math.Float64bits(v) == math.Float64bits(1.5)
+		}
+	case 2:
+		_, err = a.AppendHistogram(1, lset, t, &histogram.Histogram{Count: 3, ZeroCount: 3, Sum: 2.5}, nil)
+		sameAsLast = state == 2
+	case 3:
+		_, err = a.AppendHistogram(1, lset, t, nil, &histogram.FloatHistogram{Count: 3, Sum: 2.5})
+		sameAsLast = state == 3
+	}
+	wantOOO, wantClass := vpXRef(false, t, lastT, headMaxt, minValid, window, sameAsLast)
+	if window == 0 && t < minValid {
+		wantOOO, wantClass = false, vpXOOB // fail-fast path
+	}
+	if wantOOO && reject && wantClass == vpXAccept { // V1: an otherwise acceptable out-of-order sample is discarded on request
 		wantClass = vpXOOO
 	}
 	got := vpXClass(err)
